@@ -2,6 +2,8 @@
 import Driver.Common
 import AskarModel.Model.Uri
 import AskarModel.Model.Keys
+import AskarModel.Model.KeysDisk
+import AskarModel.Model.SqliteOpts
 
 open Lean
 
@@ -63,14 +65,30 @@ def runMethod (j : Json) : Json :=
 
 /-! ### life cycle with a toy instance of the primitives -/
 
+/-- what the model knows about a stored profile-key blob: sealed under `sk`; as written by the code (`good`), damaged so that the
+    unwrap step fails (`broken`: a flipped / cut / NULL blob), or a CBOR document of the case sealed properly (`plain`) -/
+inductive BlobState | good | broken | plain (cbor : Bytes)
+
+structure TBlob where
+  sk : Option Bytes
+  pk : Nat
+  st : BlobState := .good
+
 def toy : Crypto where
   Key := Bytes
   PK := Nat
-  Blob := Option Bytes × Nat
+  Blob := TBlob
   kdf l p s := (match l with | .interactive => 1 | .moderate => 2) :: s ++ p
   rawKey s := (rawKeyBytes s).map (0 :: ·)
-  wrapPk sk _ pk := (sk, pk)
-  loadPk sk b := if sk = b.1 then .ok b.2 else .error .encryption
+  wrapPk sk _ pk := { sk := sk, pk := pk }
+  -- a blob sealed under another key: the AEAD refuses (`Encryption`); read WITHOUT a key (`none`) the ciphertext is taken for
+  -- CBOR, which it is not (`Unsupported`); a plain CBOR read under a key does not decrypt
+  loadPk sk b :=
+    if sk ≠ b.sk then (if sk.isNone then .error .unsupported else .error .encryption)
+    else match b.st with
+      | .good => .ok b.pk
+      | .broken => if sk.isNone then .error .unsupported else .error .encryption
+      | .plain c => (pkDecodeCurrent c).map fun _ => b.pk
 
 abbrev Items := List (Str × Str × Str × Bytes)      -- profile, category, name, value
 
@@ -167,12 +185,270 @@ def runLife (j : Json) : Json :=
     (r.1, r.2 :: acc.2)) (({} : St), [])
   .arr r.2.reverse.toArray
 
+
+/-! ### second wave: config rows / file-level errors, SQLite URI parameters, shared handles, damaged profile keys -/
+
+def runOps (s : St) (ops : List Json) : St × List Json :=
+  let r := ops.foldl (fun (acc : St × List Json) op =>
+    let r := step acc.1 op
+    (r.1, r.2 :: acc.2)) (s, [])
+  (r.1, r.2.reverse)
+
+def jop (kv : List (String × Json)) : Json := Json.mkObj kv
+def jstrOpt : Option String → Json
+  | some s => .str s
+  | none => .null
+
+def isPrefixB : Str → Str → Bool
+  | [], _ => true
+  | _ :: _, [] => false
+  | a :: as, b :: bs => a = b && isPrefixB as bs
+
+def replaceAll (pat rep : Str) (s : Str) : Str :=
+  let rec go : Nat → Str → Str
+    | 0, l => l
+    | _, [] => []
+    | fuel + 1, l@(b :: rest) => if !pat.isEmpty && isPrefixB pat l then rep ++ go fuel (l.drop pat.length) else b :: go fuel rest
+  go (s.length + 1) s
+
+def afterPat (pat : Str) : Str → Option Str
+  | [] => none
+  | l@(_ :: rest) => if isPrefixB pat l then some (l.drop pat.length) else afterPat pat rest
+
+def upperHex (s : Str) : Str := s.map fun b => if 0x61 ≤ b ∧ b ≤ 0x66 then b - 0x20 else b
+
+def substKey (tpl key0 : Str) : Str :=
+  let salt := match afterPat (toStr "salt=") key0 with
+    | some x => if x.length = 32 then x else toStr "00112233445566778899aabbccddeeff"
+    | none => toStr "00112233445566778899aabbccddeeff"
+  replaceAll (toStr "{salt}") salt (replaceAll (toStr "{SALT}") (upperHex salt)
+    (replaceAll (toStr "{salt30}") (salt.take 30) (replaceAll (toStr "{key}") key0 tpl)))
+
+def cellOf (c : Json) (key0 : Str) : Cell :=
+  match asArr c with
+  | t :: rest =>
+    match asStr t, rest with
+    | "null", _ => Cell.null
+    | "text", [v] => .text (substKey (toStr (asStr v)) key0)
+    | "blob", _ => .blob
+    | "int", [v] => .text (toStr (toString (v.getInt?.toOption.getD 0)))      -- TEXT affinity
+    | _, _ => .missing
+  | [] => .missing
+
+def applyRow (cfg : Config) (key0 : Str) (o : Json) : Config :=
+  match asArr o with
+  | [row, c] =>
+    let cell := cellOf c key0
+    match asStr row with
+    | "version" => { cfg with version := cell }
+    | "key" => { cfg with key := cell }
+    | "default_profile" => { cfg with defaultProfile := cell }
+    | _ => cfg                       -- a row `open_db` does not select
+  | _ => cfg
+
+def resJson (r : Except Err (Handle toy)) : Json :=
+  match r with
+  | .ok h => jok (jstr h.profile)
+  | .error e => jerr e.name
+
+def tryOn (d : Disk toy Items) (t : Json) (ctr : Nat) : Json :=
+  let go (m : Option Method) : Json :=
+    let pass := passOf t "pass"
+    let prof := (strOpt t "profile").map toStr
+    if str! t "op" == "provision" then resJson (provisionDisk toy ([] : Items) d (m.getD .raw) pass prof (mkRnd ctr)).2
+    else resJson (openDisk toy d m pass prof).2
+  match strOpt t "method" with
+  | none => go none
+  | some ms => match Method.parse (toStr ms) with
+    | .ok m => go (some m)
+    | .error e => jerr e.name
+
+def setupOps (m : String) (pass : Json) : List Json :=
+  [jop [("op", "provision"), ("method", .str m), ("pass", pass), ("profile", "p0"), ("recreate", true)],
+   jop [("op", "create_profile"), ("name", "p1")],
+   jop [("op", "insert"), ("profile", "p0"), ("c", "c"), ("n", "n0"), ("v", "00")],
+   jop [("op", "insert"), ("profile", "p1"), ("c", "c"), ("n", "n1"), ("v", "0102")],
+   jop [("op", "close")]]
+
+def passJson (j : Json) (k : String) : Json := jstrOpt (strOpt j k)
+
+def runCfg (j : Json) : Json :=
+  let (s, _) := runOps {} (setupOps (str! j "m") (passJson j "pass"))
+  match s.fs, j.getObjVal? "edit", j.getObjVal? "try" with
+  | .store st, .ok edit, .ok t =>
+    if str! edit "t" == "rows" then
+      let cfg := (arr! edit "ops").foldl (fun c o => applyRow c st.keyRef o) (Config.ofStore st)
+      let d : Disk toy Items := .db cfg st.profiles st.items
+      let (_, back) := runOps s [jop [("op", "open"), ("method", .null), ("pass", passJson j "pass"), ("profile", .null)], jop [("op", "dump")]]
+      Json.mkObj [("try", tryOn d t (s.ctr + 1)), ("restored", .arr back.toArray)]
+    else
+      let d : Disk toy Items := match str! edit "how" with
+        | "empty" => .noTables | "foreign" => .noTables
+        | "bytes" => if nat! edit "n" ≤ 1 then .noTables else .notDb        -- SQLite takes a 1-byte file for an empty database
+        | "dir" => .dir | "absent" => .absent
+        | _ => .notDb
+      Json.mkObj [("try", tryOn d t (s.ctr + 1)), ("restored", "n/a")]
+  | _, _, _ => jerr "setup"
+
+/-! #### c08:opts -/
+
+def journalName : Journal → String
+  | .delete => "Delete" | .truncate => "Truncate" | .persist => "Persist" | .memory => "Memory" | .wal => "Wal" | .off => "Off"
+def lockingName : Locking → String
+  | .normal => "Normal" | .exclusive => "Exclusive"
+def syncName : Synchronous → String
+  | .off => "Off" | .normal => "Normal" | .full => "Full" | .extra => "Extra"
+
+def optsJson (o : SqliteOpts) : Json :=
+  Json.mkObj [("in_memory", .bool o.inMemory), ("path", jstr (replaceAll (toStr "/P") (toStr "{P}") o.path)),
+    ("busy_ms", .str (toString o.busyMs)), ("max", .str (toString o.maxConn)), ("min", .str (toString o.minConn)),
+    ("journal", .str (journalName o.journal)), ("locking", .str (lockingName o.locking)), ("shared", .bool o.sharedCache),
+    ("sync", .str (syncName o.sync))]
+
+def runOpts (j : Json) : Json :=
+  let dmax := (str! j "dmax").toNat!
+  let uri := replaceAll (toStr "{P}") (toStr "/P") (toStr (str! j "uri"))
+  let r := match str! j "via" with
+    | "uri" => sqliteOptionsOfUri dmax uri
+    | "from_path" => fromPath dmax uri
+    | _ => fromPath dmax sMemory
+  match r with
+  | .error _ => Json.mkObj [("opts", jerr "Input")]
+  | .ok o =>
+    if !(bool! j "run") then Json.mkObj [("opts", optsJson o)] else
+    let pass := passJson j "pass"
+    let excl := o.locking == .exclusive
+    let fill := [jop [("op", "create_profile"), ("name", "p1")],
+      jop [("op", "insert"), ("profile", "p0"), ("c", "c"), ("n", "n0"), ("v", "00")],
+      jop [("op", "insert"), ("profile", "p1"), ("c", "c"), ("n", "n1"), ("v", "0102")],
+      jop [("op", "insert"), ("profile", "p1"), ("c", "é"), ("n", ""), ("v", "")],
+      jop [("op", "dump")]]
+    let (s1, o1) := runOps {} (jop [("op", "provision"), ("method", "raw"), ("pass", pass), ("profile", "p0"), ("recreate", false)] :: fill)
+    let dump0 := o1.getLastD .null
+    let dump0 := if o.inMemory then dump0.setObjVal! "keyref" "<in-memory>" else dump0
+    let first := [o1.headD .null, if excl then Json.str "locked" else dump0]
+    let life :=
+      if o.inMemory then first ++ [Json.mkObj [("removed", true)], Json.mkObj [("removed", true)]]
+      else
+        let (s2, o2) := runOps s1 [jop [("op", "close")], jop [("op", "open"), ("method", "raw"), ("pass", pass), ("profile", .null)],
+          jop [("op", "dump")], jop [("op", "close")]]
+        let d2 := (o2.drop 2).headD .null
+        let same (d : Json) : Json := if d == dump0 then "same" else d
+        let (s3, o3) := runOps s2 [jop [("op", "open"), ("method", "raw"), ("pass", pass), ("profile", .null)], jop [("op", "dump")],
+          jop [("op", "close")], jop [("op", "remove")], jop [("op", "remove")]]
+        let _ := s3
+        first ++ [if excl then d2 else same d2, same ((o3.drop 1).headD .null)] ++ o3.drop 3
+    Json.mkObj [("opts", optsJson o), ("life", .arr life.toArray)]
+
+/-! #### c08:misc -/
+
+def setBlob (st : Store toy Items) (name : Str) (f : TBlob → TBlob) : Store toy Items :=
+  { st with profiles := st.profiles.map fun e => if e.1 = name then (e.1, f e.2) else e }
+
+/-- `session(profile)` + one insert: the profile's key has to load first -/
+def sessionInsert (s : St) (profile n : String) : St × Json :=
+  match s.h, s.fs with
+  | some h, .store st =>
+    match lookup (toStr profile) st.profiles with
+    | none => (s, jerr "NotFound")
+    | some blob =>
+      match toy.loadPk h.storeKey blob with
+      | .error e => (s, jerr e.name)
+      | .ok _ => ({ s with fs := .store { st with items := st.items ++ [(toStr profile, toStr "c", toStr n, toStr "v")] } }, .str "ok")
+  | _, _ => (s, jskip "closed")
+
+def openPlain (s : St) (pass : Json) (profile : Json := .null) : St × Json :=
+  step s (jop [("op", "open"), ("method", .null), ("pass", pass), ("profile", profile)])
+
+def runMisc (j : Json) : Json :=
+  let pass0 := passJson j "pass"
+  let pass1 := passJson j "pass1"
+  let openD (p : Json) := jop [("op", "open"), ("method", .null), ("pass", p), ("profile", .null)]
+  match str! j "sc" with
+  | "genraw" =>
+    let p1 : Json := .str (String.ofList (List.replicate 32 '1'))
+    let p2 : Json := .str (String.ofList (List.replicate 31 '1' ++ ['2']))
+    let (_, o) := runOps {} [
+      jop [("op", "provision"), ("method", "raw"), ("pass", p1), ("profile", "p0"), ("recreate", true)],
+      jop [("op", "insert"), ("profile", "p0"), ("c", "c"), ("n", "n0"), ("v", "00")],
+      jop [("op", "dump")], jop [("op", "close")],
+      jop [("op", "open"), ("method", "raw"), ("pass", p2), ("profile", .null)],
+      jop [("op", "open"), ("method", "raw"), ("pass", p1), ("profile", .null)],
+      jop [("op", "dump")], jop [("op", "rekey"), ("method", "raw"), ("pass", p2)], jop [("op", "close")],
+      openD p1, openD p2, jop [("op", "dump")], jop [("op", "close")]]
+    .arr o.toArray
+  | "clone-rekey" =>
+    let (s, o) := runOps {} [
+      jop [("op", "provision"), ("method", .str (str! j "m")), ("pass", pass0), ("profile", "p0"), ("recreate", true)],
+      jop [("op", "create_profile"), ("name", "p1")],
+      jop [("op", "insert"), ("profile", "p1"), ("c", "c"), ("n", "n1"), ("v", "0102")]]
+    match s.h, s.fs, Method.parse (toStr (str! j "m1")) with
+    | some h, .store st, .ok m1 =>
+      let r := rekeyAny 2 toy st h m1 (passOf j "pass1") (mkRnd (s.ctr + 1))
+      let refused : Json := match r.2 with | .ok _ => .str "ok" | .error e => jerr e.name
+      let s := { s with fs := .store r.1, ctr := s.ctr + 1 }
+      let names : Json := .arr ((sortBy (fun (a b : Str) => strLt a b) (r.1.profiles.map (·.1))).map jstr).toArray
+      let rest := if bool! j "then" then
+          [jop [("op", "rekey"), ("method", .str (str! j "m1")), ("pass", pass1)], jop [("op", "close")], openD pass1, jop [("op", "dump")], jop [("op", "close")]]
+        else [jop [("op", "close")], openD pass0, jop [("op", "dump")], jop [("op", "close")]]
+      let (_, o2) := runOps s rest
+      .arr (o ++ [refused, names] ++ o2).toArray
+    | _, _, _ => jerr "setup"
+  | "pk" =>
+    let (s, o) := runOps {} (setupOps (str! j "m") pass0)
+    match s.fs, j.getObjVal? "damage" with
+    | .store st, .ok d =>
+      -- the version test of a version-checking reader (proposals/C08-profile-key-version.diff, a suggestion) on the same document
+      let fin (l : List Json) : Json :=
+        if str! d "t" == "cbor" then
+          let okv := match Askar.Crypto.Cbor.decode (hex! d "hex") with
+            | some m => pkVersionOk m
+            | none => false
+          .arr (l ++ [Json.mkObj [("fix_ver_ok", .bool okv)]]).toArray
+        else .arr l.toArray
+      let target := toStr (str! j "target")
+      let st' := match str! d "t" with
+        | "flip" => setBlob st target fun b => { b with st := .broken }
+        | "null" => setBlob st target fun b => { b with st := .broken }
+        | "trunc" => if nat! d "n" ≥ 1000 then st else setBlob st target fun b => { b with st := .broken }
+        | "cbor" => setBlob st target fun b => { b with st := .plain (hex! d "hex") }
+        | _ => st
+      let s := { s with fs := .store st' }
+      if target = toStr "p0" then
+        let (sa, r1) := openPlain s pass0
+        let (_, r2) := openPlain { s with ctr := sa.ctr } pass0 (.str "p1")
+        let extra := match sa.h with
+          | some _ => (runOps { s with ctr := sa.ctr + 1 } [openD pass0, jop [("op", "dump")], jop [("op", "close")]]).2
+          | none => []
+        fin (o ++ [r1, r2] ++ extra)
+      else
+        let (s1, r1) := openPlain s pass0
+        match s1.h with
+        | none => fin (o ++ [r1])
+        | some _ =>
+          let (s2, r2) := sessionInsert s1 "p1" "x1"
+          let (s3, r3) := step s2 (jop [("op", "rekey"), ("method", .str (str! j "m1")), ("pass", pass1)])
+          if r3 == .str "ok" then
+            let (s4, _) := step s3 (jop [("op", "close")])
+            let (_, r5) := openPlain s4 pass1
+            fin (o ++ [r1, r2, r3, r5])
+          else
+            let (s4, r4) := sessionInsert s3 "p0" "x0"
+            let (s5, _) := step s4 (jop [("op", "close")])
+            let (_, r6) := openPlain s5 pass0
+            fin (o ++ [r1, r2, r3, r4, r6, .str "kept"])
+    | _, _ => jerr "setup"
+  | sc => jerr ("unknown scenario " ++ sc)
+
 def runCase (j : Json) : Json :=
   match str! j "kind" with
   | "c08:uri-opts" => runUriOpts j
   | "c08:uri-parse" => runUriParse j
   | "c08:method" => runMethod j
   | "c08:life" => runLife j
+  | "c08:cfg" => runCfg j
+  | "c08:opts" => runOpts j
+  | "c08:misc" => runMisc j
   | k => jerr ("unknown kind " ++ k)
 
 end Driver.C08
